@@ -2,6 +2,7 @@
 //! (`lsmdrv`, line protocol). See /verif/DESIGN.md section 5.
 mod ia;
 mod ia2;
+mod ia3;
 mod ia4;
 mod flip;
 mod fs;
@@ -73,6 +74,12 @@ fn main() {
             }
             if all || which == "filters" {
                 ia2::filters(seed, cases, &mut st, &mut drv);
+            }
+            if which == "manifest-replay" {
+                ia3::replay_log(&args[3], args.iter().any(|a| a == "--shrink"), &mut st);
+            }
+            if all || which == "manifest" {
+                ia3::manifest(seed, cases, &mut st, &mut drv);
             }
             if all || which == "hwm" {
                 ia4::hwm(seed, cases, &mut st, &mut drv);
